@@ -98,7 +98,7 @@ func quoteCols(s string) int {
 	return n
 }
 
-var c08Words = []string{"a", "abc", "hello world", "x", "é", "日本語", "it's", "//not a comment", "/* neither */", "a;b", "{ }", "+", "  two  blanks", "tab\there", "'", "''", "q=\"", "*/", "#"}
+var c08Words = []string{"a", "abc", "hello world", "x", "é", "日本語", "it's", "//not a comment", "/* neither */", "a;b", "{ }", "+", "  two  blanks", "tab\there", "'", "''", "q=\"", "*/", "#", "caf\ufffd", "\ufffd"}
 
 func c08IndentStr(r *core.Rng, maxCols int) string {
 	var b strings.Builder
@@ -194,7 +194,9 @@ func c08Single(r *core.Rng) string {
 
 var c08Trivia = []string{"", " ", "\n", "  \n\t", " /* c */ ", " // lc\n ", "\t", "\n\n  ", "/* \" */", " /* ' + */ ",
 	// comments whose text starts or ends with the characters of the comment markers
-	" /*/ x */ ", "/*/*/", " /*//////\n * banner\n //////*/ ", "/***/", " //*/ lc\n", " /*/ \"q\" + */ ", "/* // */"}
+	" /*/ x */ ", "/*/*/", " /*//////\n * banner\n //////*/ ", "/***/", " //*/ lc\n", " /*/ \"q\" + */ ", "/* // */",
+	// the replacement character, written out, is a character like any other
+	" /* \ufffd */ ", " // \ufffd\n"}
 
 func c08Gen(r *core.Rng) *c08Case {
 	c := &c08Case{}
@@ -203,6 +205,10 @@ func c08Gen(r *core.Rng) *c08Case {
 		c.Lead = ""
 	case 1:
 		c.Lead = strings.Repeat(" ", r.Intn(61))
+		if r.Chance(1, 6) {
+			// far to the right
+			c.Lead = strings.Repeat(" ", 56+r.Intn(260))
+		}
 	case 2:
 		c.Lead = strings.Repeat("\t", r.Range(1, 4))
 	case 3:
@@ -223,7 +229,7 @@ func c08Gen(r *core.Rng) *c08Case {
 		case n == 1 && r.Chance(1, 5):
 			p = yang.Piece{Kind: yang.Unquoted, Raw: core.Pick(r, []string{"word", "a.b-c_d", "http://x/y", "a/*b", "é日", "1..5|7", "x:y", "a\\nb", "x'y", "a=b",
 				// blanks of Unicode that are no separators in YANG: part of the token
-				"10\u00a0km", "km\u00a0", "\u00a0km", "全角\u3000空白", "a\u2009b", "x\u0085y", "z\u2028"})}
+				"a\ufffdb", "10\u00a0km", "km\u00a0", "\u00a0km", "全角\u3000空白", "a\u2009b", "x\u0085y", "z\u2028"})}
 		case r.Chance(1, 4):
 			p = yang.Piece{Kind: yang.Single, Raw: c08Single(r)}
 		default:
